@@ -633,6 +633,9 @@ def value_attr(it, o, attr):
         if attr == 'is_integer':
             return B(lambda: V.cmp('==', V.floor(o), o))
         raise PyExc('AttributeError', f'scalar has no attribute {attr}')
+    if isinstance(o, I.Builtin) and o.name == 'np.add' and attr == 'at':
+        from . import nplib
+        return I.Builtin('np.add.at', nplib.np_add_at, wants_interp=True)
     if isinstance(o, I.ExcClass):
         if attr == '__name__':
             return o.name
